@@ -94,7 +94,25 @@ func (g *c07Gen) mutator() jast.Node {
 
 func (g *c07Gen) pattern() jast.Node {
 	r := g.r
-	switch r.Intn(12) {
+	switch r.Intn(14) {
+	case 12, 13:
+		// a pattern that does not start with a variable but reaches the input
+		// (or a registered variable) further in: what it selects is not the copy's
+		g.tags["pattern:relative-reaching-outside"] = true
+		out := []jast.Node{
+			&jast.Path{Steps: []jast.Node{&jast.Var{Name: "$"}, &jast.Name{V: "a"}}},
+			&jast.Var{Name: "reg"}, &jast.Var{Name: "v"},
+			&jast.Path{Steps: []jast.Node{&jast.Var{Name: "$"}, &jast.Name{V: "arr"}}},
+		}[r.Intn(4)]
+		switch r.Intn(4) {
+		case 0:
+			return &jast.Path{Steps: []jast.Node{&jast.Name{V: r.Pick("a", "arr", "c")}, &jast.Block{Exprs: []jast.Node{out}}}}
+		case 1:
+			return &jast.Block{Exprs: []jast.Node{out}}
+		case 2:
+			return &jast.Call{Fn: &jast.Var{Name: "lookup"}, Args: []jast.Node{&jast.Var{Name: "$"}, &jast.Str{V: r.Pick("a", "c")}}}
+		}
+		return &jast.Array{Items: []jast.Node{&jast.Var{Name: ""}, out}}
 	case 0:
 		g.tags["pattern:$"] = true
 		return &jast.Var{Name: ""}
